@@ -196,7 +196,7 @@ Definition run_vc (cmd : string) (args : list string) : option (list string) :=
     match args with
     | [sa] =>
       Some match cparse false sa with
-           | Ok a => [show_bool (h_goodc a); show_bool (h_sorted a)]
+           | Ok a => [show_bool (h_goodc a); show_bool (h_sorted a); show_bool (h_nondeg a)]
            | _ => ["badoperand"] end
     | _ => None end
   else if seq cmd "cpred" then
